@@ -471,7 +471,11 @@ pub fn run(ctx: &Ctx) {
             )
                 .prop_flat_map(move |(profile, i)| {
                     let bad = tbl[i].clone();
-                    prefix_strategy(8, profile).prop_map(move |prefix| Case { profile, prefix, bad: bad.clone() })
+                    (any::<bool>(), prefix_strategy(8, profile)).prop_map(move |(rich, prefix)| {
+                        let mut all = if rich { ops::rich_setup(profile) } else { vec![] };
+                        all.extend(prefix);
+                        Case { profile, prefix: all, bad: bad.clone() }
+                    })
                 })
         },
         check,
